@@ -187,7 +187,7 @@ def run(ctx):
         for i, rnd in ctx.cases("terms", len(kinds) * nparam):
             kind = kinds[i % len(kinds)]
             lo, hi, d = ranges(rnd)
-            spec = G.shape_term(rnd, "t", lo, hi, kind=kind, d=d)
+            spec = G.shape_term(rnd, "t", lo, hi, kind=kind, d=d, free_height=True)
             term = G.build_term(fl, spec)
             xs = G.x_values(rnd, spec, lo, hi)
             form = i // len(kinds) % 4
